@@ -75,6 +75,11 @@ type cfgBuilder struct {
 	// naming an intermediate does not hide the atoms from the fact engines.
 	pendingObj types.Object
 	pendingRhs ast.Expr
+	// stable: boolean locals defined once as a pure comparison / logical expression of
+	// operands that are themselves never reassigned ("blocked := state&bit != 0" with
+	// state defined once): wherever they are tested, the test is that expression.
+	stable   map[types.Object]ast.Expr
+	defCount map[types.Object]int
 }
 
 type target struct {
@@ -143,6 +148,10 @@ func (b *cfgBuilder) cond(e ast.Expr, t, f *Block) {
 			b.cond(b.pendingRhs, t, f)
 			return
 		}
+		if rhs, ok := b.stable[b.p.ObjOf(x)]; ok {
+			b.cond(rhs, t, f)
+			return
+		}
 	case *ast.UnaryExpr:
 		if x.Op == token.NOT {
 			b.cond(x.X, f, t)
@@ -174,6 +183,7 @@ func (b *cfgBuilder) cond(e ast.Expr, t, f *Block) {
 func (b *cfgBuilder) stmtList(l []ast.Stmt) {
 	for i, s := range l {
 		b.stmt(s, "")
+		b.noteStableBool(s)
 		// a pure boolean definition is remembered for the next statement only
 		b.pendingObj, b.pendingRhs = nil, nil
 		if i+1 < len(l) {
@@ -201,6 +211,99 @@ func (b *cfgBuilder) notePureBool(s ast.Stmt) {
 		return
 	}
 	b.pendingObj, b.pendingRhs = b.p.ObjOf(id), as.Rhs[0]
+}
+
+// noteStableBool records "v := <pure boolean expression over never-reassigned locals>".
+func (b *cfgBuilder) noteStableBool(s ast.Stmt) {
+	as, ok := s.(*ast.AssignStmt)
+	if !ok || as.Tok != token.DEFINE || len(as.Lhs) != 1 || len(as.Rhs) != 1 {
+		return
+	}
+	id, ok := as.Lhs[0].(*ast.Ident)
+	if !ok || !pureBoolExpr(as.Rhs[0]) {
+		return
+	}
+	if t := b.p.TypeOf(as.Rhs[0]); t == nil {
+		return
+	} else if bt, isB := t.Underlying().(*types.Basic); !isB || bt.Info()&types.IsBoolean == 0 {
+		return
+	}
+	v := b.p.Info.Defs[id]
+	if v == nil {
+		return
+	}
+	if b.defCount == nil {
+		b.defCount = map[types.Object]int{}
+		root := b.g.Fn.Root()
+		if root.Body != nil {
+			bump := func(e ast.Expr, k int) {
+				if x, ok := unparen(e).(*ast.Ident); ok {
+					if o := b.p.ObjOf(x); o != nil {
+						b.defCount[o] += k
+					}
+				}
+			}
+			ast.Inspect(root.Body, func(n ast.Node) bool {
+				switch x := n.(type) {
+				case *ast.AssignStmt:
+					for _, l := range x.Lhs {
+						bump(l, 1)
+					}
+				case *ast.IncDecStmt:
+					bump(x.X, 1)
+				case *ast.RangeStmt:
+					bump(x.Key, 1)
+					bump(x.Value, 1)
+				case *ast.ValueSpec:
+					for _, nm := range x.Names {
+						bump(nm, 1)
+					}
+				case *ast.UnaryExpr:
+					if x.Op == token.AND {
+						bump(x.X, 2)
+					}
+				}
+				return true
+			})
+		}
+	}
+	if b.defCount[v] != 1 {
+		return
+	}
+	root := b.g.Fn.Root()
+	okOps := true
+	ast.Inspect(as.Rhs[0], func(n ast.Node) bool {
+		switch x := n.(type) {
+		case *ast.SelectorExpr, *ast.IndexExpr, *ast.StarExpr, *ast.CallExpr, *ast.SliceExpr, *ast.TypeAssertExpr, *ast.FuncLit:
+			okOps = false
+		case *ast.Ident:
+			switch o := b.p.ObjOf(x).(type) {
+			case *types.Var:
+				if o.IsField() || o.Pkg() == nil || o.Parent() == o.Pkg().Scope() {
+					okOps = false
+					break
+				}
+				want := 1
+				if root.Body != nil && o.Pos() < root.Body.Pos() {
+					want = 0 // a parameter
+				}
+				if b.defCount[o] != want {
+					okOps = false
+				}
+			case *types.Const, *types.Nil:
+			default:
+				okOps = false
+			}
+		}
+		return okOps
+	})
+	if !okOps {
+		return
+	}
+	if b.stable == nil {
+		b.stable = map[types.Object]ast.Expr{}
+	}
+	b.stable[v] = as.Rhs[0]
 }
 
 // pureBoolExpr: comparisons and logical combinations of operands without calls.
